@@ -475,6 +475,202 @@ theorem commitCheck_ok {c c1 : CState} {r id dig : Bytes} {rp : Repo} {b : Buffe
 
 end
 
+/-! ### The commit lock: what `CommitSerial` says, and what it gives -/
+
+theorem not_isCommitOf_of_not_takes {r id : Bytes} {a : AStep} (h : ¬ TakesCommitMu r id a) :
+    ¬ IsCommitOf r id a := by
+  cases a with
+  | op o => exact fun h' => h'
+  | commitCheck r' id' dig => exact h
+  | commitStore r' id' => exact h
+
+theorem held_contains_cons_self (k : Bytes × Bytes) (held : Held) : (k :: held).contains k = true := by
+  simp
+
+theorem held_contains_cons_of {k k' : Bytes × Bytes} {held : Held} (h : held.contains k = true) :
+    (k' :: held).contains k = true := by
+  simp at h ⊢; exact Or.inr h
+
+theorem held_contains_release_ne {k k' : Bytes × Bytes} {held : Held} (hne : k' ≠ k)
+    (h : held.contains k = true) : (held.filter fun x => !(x == k')).contains k = true := by
+  simp at h ⊢
+  exact ⟨h, fun e => hne e.symm⟩
+
+/-- While a `Commit` of session `(r, id)` holds the lock, a step that the locks allow and that is
+not the `commitStore` of that session does not take that session's `commitMu`, and leaves the
+lock held. -/
+theorem lockStep_held {held held' : Held} {a : AStep} {out : Out} {r id : Bytes}
+    (hl : lockStep held a out = some held') (hh : held.contains (r, id) = true)
+    (ha : a ≠ .commitStore r id) : ¬ TakesCommitMu r id a ∧ held'.contains (r, id) = true := by
+  have hm : (r, id) ∈ held := by simpa using hh
+  cases a with
+  | commitCheck r' id' dig =>
+    by_cases e : (r', id') = (r, id)
+    · cases e
+      simp [lockStep, hm] at hl
+    · by_cases hc : held.contains (r', id') = true
+      · simp only [lockStep, hc, if_true] at hl; cases hl
+      · simp only [lockStep, hc] at hl
+        refine ⟨fun ⟨e1, e2⟩ => e (by rw [e1, e2]), ?_⟩
+        cases hl
+        split
+        · exact held_contains_cons_of hh
+        · exact hh
+  | commitStore r' id' =>
+    have e : (r', id') ≠ (r, id) := by
+      intro e; cases e; exact ha rfl
+    simp only [lockStep] at hl
+    cases hl
+    exact ⟨fun ⟨e1, e2⟩ => e (by rw [e1, e2]), held_contains_release_ne e hh⟩
+  | op o =>
+    cases o
+    case wCommit r' id' dig =>
+      by_cases e : (r', id') = (r, id)
+      · cases e
+        simp [lockStep, hm] at hl
+      · by_cases hc : held.contains (r', id') = true
+        · simp only [lockStep, hc, if_true] at hl; cases hl
+        · simp only [lockStep, hc] at hl
+          cases hl
+          exact ⟨fun ⟨e1, e2⟩ => e (by rw [e1, e2]), hh⟩
+    case wCancel r' id' =>
+      by_cases e : (r', id') = (r, id)
+      · cases e
+        simp [lockStep, hm] at hl
+      · by_cases hc : held.contains (r', id') = true
+        · simp only [lockStep, hc, if_true] at hl; cases hl
+        · simp only [lockStep, hc] at hl
+          cases hl
+          exact ⟨fun ⟨e1, e2⟩ => e (by rw [e1, e2]), hh⟩
+    all_goals
+      simp only [lockStep] at hl
+      cases hl
+      exact ⟨fun h => h, hh⟩
+
+section
+variable (H : Bytes → Bytes)
+
+theorem commitSerialFrom_cons {c : CState} {held : Held} {a : AStep} {rest : List AStep}
+    (h : commitSerialFrom H c held (a :: rest) = true) :
+    ∃ held', lockStep held a (astep H c a).2 = some held' ∧
+      commitSerialFrom H (astep H c a).1 held' rest = true := by
+  simp only [commitSerialFrom] at h
+  cases hl : lockStep held a (astep H c a).2 with
+  | none => rw [hl] at h; cases h
+  | some held' => rw [hl] at h; exact ⟨held', rfl, h⟩
+
+/-- A schedule that respects the commit locks still does after any prefix of it has run (with
+whatever locks are held by then). -/
+theorem commitSerialFrom_append {c : CState} {held : Held} (l1 l2 : List AStep)
+    (h : commitSerialFrom H c held (l1 ++ l2) = true) :
+    ∃ held', commitSerialFrom H (arun H c l1) held' l2 = true := by
+  induction l1 generalizing c held with
+  | nil => exact ⟨held, h⟩
+  | cons a rest ih =>
+    obtain ⟨held', _, h'⟩ := commitSerialFrom_cons H h
+    exact ih h'
+
+/-- With the lock of `(r, id)` held: up to the next `commitStore r id`, no step takes that
+session's `commitMu`. -/
+theorem commitSerialFrom_window {c : CState} {held : Held} {r id : Bytes} (mid post : List AStep)
+    (h : commitSerialFrom H c held (mid ++ .commitStore r id :: post) = true)
+    (hh : held.contains (r, id) = true) (hmid : ∀ a ∈ mid, a ≠ .commitStore r id) :
+    ∀ a ∈ mid, ¬ TakesCommitMu r id a := by
+  induction mid generalizing c held with
+  | nil => intro a ha; cases ha
+  | cons x rest ih =>
+    obtain ⟨held', hl, h'⟩ := commitSerialFrom_cons H h
+    obtain ⟨hx, hh'⟩ := lockStep_held hl hh (hmid x (List.mem_cons_self ..))
+    intro a ha
+    rcases List.mem_cons.1 ha with rfl | ha
+    · exact hx
+    · exact ih h' hh' (fun a ha => hmid a (List.mem_cons_of_mem _ ha)) a ha
+
+/-- What `CommitSerial` says, spelled out: if a `commitCheck r id dig` of the schedule succeeds,
+then from there to the `commitStore r id` that belongs to it (the next one) there is no section
+of another `Commit` of that session, no one-step `wCommit` of it and no `wCancel` of it. -/
+theorem commitSerial_window {c : CState} {r id dig : Bytes} (pre mid post : List AStep)
+    (hs : CommitSerial H c (pre ++ .commitCheck r id dig :: (mid ++ .commitStore r id :: post)))
+    (hok : (astep H (arun H c pre) (.commitCheck r id dig)).2 = .okUnit)
+    (hmid : ∀ a ∈ mid, a ≠ .commitStore r id) :
+    ∀ a ∈ mid, ¬ TakesCommitMu r id a := by
+  obtain ⟨held, h⟩ := commitSerialFrom_append H pre _ hs
+  obtain ⟨held', hl, h'⟩ := commitSerialFrom_cons H h
+  have hh : held'.contains (r, id) = true := by
+    by_cases hc : held.contains (r, id) = true
+    · simp only [lockStep, hc, if_true] at hl; cases hl
+    · simp only [lockStep, hc, hok] at hl
+      cases hl
+      exact held_contains_cons_self _ _
+  exact commitSerialFrom_window H mid post h' hh hmid
+
+/-- outputs and final state of a schedule, split at a step -/
+theorem aouts_append (c : CState) (l1 l2 : List AStep) :
+    aouts H c (l1 ++ l2) = aouts H c l1 ++ aouts H (arun H c l1) l2 := by
+  induction l1 generalizing c with
+  | nil => rfl
+  | cons a rest ih => simp only [List.cons_append, aouts, arun_cons, ih]
+
+theorem aouts_length (c : CState) (l : List AStep) : (aouts H c l).length = l.length := by
+  induction l generalizing c with
+  | nil => rfl
+  | cons a rest ih => simp [aouts, ih]
+
+/-- the output of the step at position `pre.length` -/
+theorem aouts_at (c : CState) (pre : List AStep) (a : AStep) (post : List AStep) :
+    (aouts H c (pre ++ a :: post))[pre.length]? = some (astep H (arun H c pre) a).2 := by
+  rw [aouts_append, List.getElem?_append_right (by rw [aouts_length]; exact Nat.le_refl _), aouts_length]
+  simp [aouts]
+
+/-- A successful `commitCheck` found a buffer, unpoisoned, whose bytes hash to the digest. -/
+theorem commitCheck_ok_buffer {c : CState} {r id dig : Bytes}
+    (hok : (astep H c (.commitCheck r id dig)).2 = .okUnit) :
+    ∃ rp b, getBuffer c.st r id = some (rp, b) ∧
+      astep H c (.commitCheck r id dig) = ((astep H c (.commitCheck r id dig)).1, .okUnit) := by
+  rcases commitCheck_spec H c r id dig with ⟨_, h⟩ | ⟨_, _, _, _, _, h⟩ | ⟨_, _, _, _, _, h⟩ | ⟨rp, b, hb, _, _, h⟩
+  · rw [h] at hok; cases hok
+  · rw [h] at hok; cases hok
+  · rw [h] at hok; cases hok
+  · exact ⟨rp, b, hb, by rw [h]⟩
+
+end
+
+/-! ### Positions in a schedule -/
+
+theorem split_at_getElem? {α} {l : List α} {i : Nat} {a : α} (h : l[i]? = some a) :
+    l = l.take i ++ a :: l.drop (i + 1) ∧ (l.take i).length = i := by
+  induction l generalizing i with
+  | nil => simp at h
+  | cons x xs ih =>
+    cases i with
+    | zero => simp at h; subst h; simp
+    | succ k =>
+      simp only [List.getElem?_cons_succ] at h
+      obtain ⟨h1, h2⟩ := ih h
+      refine ⟨?_, by simp [h2]⟩
+      simp only [List.take_succ_cons, List.drop_succ_cons, List.cons_append]
+      rw [← h1]
+
+theorem mem_take_getElem? {α} {l : List α} {n : Nat} {a : α} (h : a ∈ l.take n) :
+    ∃ k, k < n ∧ l[k]? = some a := by
+  induction l generalizing n with
+  | nil => simp at h
+  | cons x xs ih =>
+    cases n with
+    | zero => simp at h
+    | succ m =>
+      simp only [List.take_succ_cons, List.mem_cons] at h
+      rcases h with rfl | h
+      · exact ⟨0, Nat.succ_pos _, rfl⟩
+      · obtain ⟨k, hk, hg⟩ := ih h
+        exact ⟨k + 1, Nat.succ_lt_succ hk, by simpa using hg⟩
+
+theorem take_length_succ_append {α} (l1 : List α) (a : α) (l2 : List α) :
+    (l1 ++ a :: l2).take (l1.length + 1) = l1 ++ [a] := by
+  induction l1 with
+  | nil => simp
+  | cons x xs ih => simp only [List.cons_append, List.length_cons, List.take_succ_cons, ih]
+
 /-! ### K4: positions in event traces -/
 
 theorem pos_lt_length {e : Ev} {tr : List Ev} {i : Nat} (h : pos e tr = some i) : i < tr.length := by
@@ -505,6 +701,58 @@ theorem pos_get {e : Ev} {tr : List Ev} {i : Nat} (h : pos e tr = some i) : tr[i
       | some j =>
         simp [hp] at h; subst h
         simpa using ih hp
+
+/-! ### F33: two commits of one upload session without the commit lock -/
+
+namespace DualCommit
+
+/-- the identity as "hash": a blob's digest is its content -/
+def Hid : Bytes → Bytes := fun b => b
+
+def rD : Bytes := [97]        -- repository "a"
+def uD : Bytes := [117]       -- upload session "u"
+def vD : Bytes := [118]       -- another upload session "v"
+def d1 : Bytes := [1]
+def d2 : Bytes := [1, 2]
+
+/-- session `u` of repository `a` holds the bytes `[1]`; session `v` holds `[9]` -/
+def c0 : CState := arun Hid ⟨Mem.init false, []⟩
+  [.op (.resume rD uD 0), .op (.wWrite rD uD [1]), .op (.resume rD vD 0), .op (.wWrite rD vD [9])]
+
+/-- The F33 interleaving of two handles on session `u`: `Commit(d1)` checks; the other handle
+writes and its `Commit(d2)` checks; then the two callbacks run. -/
+def sched : List AStep :=
+  [.commitCheck rD uD d1,          -- handle 1, Commit(d1), first section: the buffer is [1], fine
+   .op (.wWrite rD uD [2]),        -- handle 2: Write
+   .commitCheck rD uD d2,          -- handle 2, Commit(d2), first section: the buffer is [1,2], fine
+   .commitStore rD uD,             -- a callback: stores and reports d2
+   .commitStore rD uD]             -- the other callback: nothing left to store
+
+/-- a `Cancel` landing between the two sections of a `Commit` -/
+def cancelSched : List AStep :=
+  [.commitCheck rD uD d1, .op (.wCancel rD uD), .commitStore rD uD]
+
+/-- A schedule that respects the commit lock although a lot happens between the two sections of
+`Commit(d1)` on session `u`: a write to that very session, a size query, a whole commit of
+session `v` (both sections), a refused commit of `v`, a blob push and a delete; afterwards a
+second `Commit` of `u`, now for `d2`, and a `Cancel`. -/
+def serialSched : List AStep :=
+  [.commitCheck rD uD d1,
+   .op (.wWrite rD uD [2]),
+   .op (.wSize rD uD),
+   .commitCheck rD vD [9],
+   .op (.wWrite rD vD [8]),
+   .commitStore rD vD,
+   .commitCheck rD vD [7],         -- refused (DIGEST_INVALID): releases the lock at once
+   .op (.wCancel rD vD),
+   .op (.deleteBlob rD [9]),
+   .commitStore rD uD,             -- position 9: the second section of Commit(d1)
+   .commitCheck rD uD d2,
+   .op (.wWrite rD uD [3]),
+   .commitStore rD uD,
+   .op (.wCancel rD uD)]
+
+end DualCommit
 
 /-! ### K3 (negative): `GetTag` as two critical sections -/
 
